@@ -159,7 +159,7 @@ def default_knobs(rng) -> dict:
         "p_cond": rng.choice([0.0, 0.05, 0.12, 0.2]),
         "cond_depth": rng.choice([0, 1, 1, 2, 2]),
         "p_sing": rng.choice([0.0, 0.05, 0.15]),
-        "p_const": rng.choice([0.0, 0.0, 0.1, 0.3]),
+        "p_const": rng.choice([0.0, 0.0, 0.1, 0.3, 0.3]),
         "layers": rng.choice([1, 2, 3, 5, 8]),
         "maxlen": rng.choice([1, 3, 6, 12]),
         "shuffle": rng.random() < 0.7,
@@ -263,6 +263,17 @@ def gen_model(rng, knobs: dict | None = None) -> str:
         if rng.random() < 0.6 and name not in deps:
             deps.append(name)  # own-state dependence: Rush-Larsen linearisation is non-trivial
         derivs.append(("d%s_dt" % name, comp, deps))
+
+    # several constants feeding one consumer: in-degree-0 assignment nodes that are ready at
+    # once are where any insertion-order dependence of the sorter shows
+    consts = [n for (n, _c, d) in inter if not d]
+    if len(consts) >= 2:
+        consumers = [x for x in inter if x[2]] + derivs
+        for _ in range(min(2, len(consumers))):
+            tgt = rng.choice(consumers)
+            for cname in rng.sample(consts, 2):
+                if cname not in tgt[2] and cname != tgt[0]:
+                    tgt[2].append(cname)
 
     def block(kind, comp, entries):
         head = '%s(%s,' % (kind, _tags(comp)) if comp != "" else "%s(" % kind
